@@ -752,11 +752,11 @@ func execServe(c Case, tmpRoot string) (obs serveObs) {
 			}
 			if c.Cache != "mem" {
 				// the state of a directory cache (memory LRU, fd LRU, files, asynchronous persistence) is not
-				// predicted: what it answered is replayed as the environment's honest cache
-				obs.coqOps = append(obs.coqOps, "CEnvOn "+coqKeys(hits))
-				obs.outs = append(obs.outs, readOut{})
+				// predicted: the probes it answered are given to the model as the environment's honest cache
+				obs.coqOps = append(obs.coqOps, fmt.Sprintf("CReadObs %d %d %d %s", f, o.Off, o.Len, coqKeys(hits)))
+			} else {
+				obs.coqOps = append(obs.coqOps, fmt.Sprintf("CRead %d %d %d", f, o.Off, o.Len))
 			}
-			obs.coqOps = append(obs.coqOps, fmt.Sprintf("CRead %d %d %d", f, o.Off, o.Len))
 			obs.outs = append(obs.outs, ro)
 			obs.stats["op.read"]++
 			if o.Off+o.Len > fi.size {
